@@ -15,7 +15,7 @@ variable {σ : Type}
 /-- the session an operation addresses -/
 def Api.sidOf : Op → Option Nat
   | .case_ | .align | .nullses => none
-  | .new sid _ _ | .params sid _ | .release sid | .cb sid _ | .ctrl sid _ | .payload sid _ _ | .build sid _ _
+  | .new sid _ _ | .params sid _ | .release sid | .unconf sid | .cb sid _ | .ctrl sid _ | .payload sid _ _ | .build sid _ _
   | .recv sid _ _ | .avail sid _ | .availnull sid | .finish sid | .complete sid | .sources sid | .matrix sid | .cwdump sid => some sid
 
 theorem limits_ldpc {p : Params} (h : withinLimits 3 p = true) : p.N1 ≤ p.r ∧ 1 ≤ p.seed.toNat ∧ p.seed.toNat ≤ 2147483646 := by
